@@ -381,7 +381,9 @@ def _livepatch__function(old_func, new_func, modname, cache, visit_stack):
     # Update function code, defaults, doc.
     old_func.__code__ = new_func.__code__
     old_func.__defaults__ = new_func.__defaults__
+    old_func.__kwdefaults__ = new_func.__kwdefaults__
     old_func.__doc__ = new_func.__doc__
+    old_func.__annotations__ = new_func.__annotations__
     # Update dict.
     livepatch(old_func.__dict__, new_func.__dict__,
               modname=modname, cache=cache, visit_stack=visit_stack)
